@@ -1,8 +1,13 @@
 package harness
 
 import (
+	"go/ast"
+	"go/parser"
+	"go/token"
+	"strings"
 	"time"
 
+	"verif.local/sim/simrt"
 	"verif.local/sim/world"
 )
 
@@ -62,6 +67,94 @@ func DefaultReductions(c *Case) []*Case {
 		d.Spec.Knobs = world.Knobs{Seed: c.Spec.Knobs.Seed}
 		out = append(out, d)
 	}
+	// drop bystander nodes (decoys, stray files, symlinks) that no argument names
+	named := map[string]bool{PatDir + "/list.txt": true}
+	for _, f := range c.Files {
+		named[f.Path] = true
+	}
+	for _, p := range c.Patches {
+		named[p.Path] = true
+	}
+	var bystanders []int
+	for i, n := range c.Spec.Nodes {
+		if n.Kind != "dir" && !named[n.Path] {
+			bystanders = append(bystanders, i)
+		}
+	}
+	if len(bystanders) > 0 && len(c.Files) > 0 {
+		d := c.Clone()
+		var keep []world.NodeSpec
+		for _, n := range c.Spec.Nodes {
+			if n.Kind == "dir" || named[n.Path] {
+				keep = append(keep, n)
+			}
+		}
+		d.Spec.Nodes = keep
+		out = append(out, d)
+		if len(bystanders) > 1 {
+			for _, i := range bystanders {
+				d := c.Clone()
+				d.Spec.Nodes = append(d.Spec.Nodes[:i:i], d.Spec.Nodes[i+1:]...)
+				out = append(out, d)
+			}
+		}
+	}
+	// library histories and schedules: drop calls, drop context switches
+	if len(c.Calls) > 1 {
+		for i := range c.Calls {
+			d := c.Clone()
+			d.Calls = append(d.Calls[:i:i], d.Calls[i+1:]...)
+			out = append(out, d)
+		}
+	}
+	if c.Sched != nil && len(c.Sched.Switches) > 1 {
+		// delta debugging over the switch list: remove chunks (halves, quarters, ...)
+		// and, for short lists, single switches; the number of candidates per round
+		// stays small because every candidate is a full clone of the case
+		sw := c.Sched.Switches
+		shallow := *c
+		shallow.Sched = &Sched{Policy: c.Sched.Policy, Seed: c.Sched.Seed, Param: c.Sched.Param}
+		without := func(a, b int) *Case {
+			d := shallow.Clone()
+			d.Sched.Switches = append(append([]simrt.Switch(nil), sw[:a]...), sw[b:]...)
+			return d
+		}
+		n := len(sw)
+		for parts := 2; parts <= 8 && parts <= n; parts *= 2 {
+			for k := 0; k < parts; k++ {
+				out = append(out, without(k*n/parts, (k+1)*n/parts))
+			}
+		}
+		if n <= 24 {
+			for i := 0; i < n; i++ {
+				out = append(out, without(i, i+1))
+			}
+		}
+	}
+	// smaller Go files: remove one top-level declaration at a time (the file must
+	// still parse, so that the case stays inside the generated space)
+	for _, f := range c.Files {
+		src := c.NodeData(f.Path)
+		for _, smaller := range dropDecls(src, 8) {
+			d := c.Clone()
+			for i := range d.Spec.Nodes {
+				if d.Spec.Nodes[i].Path == f.Path {
+					d.Spec.Nodes[i].Data = smaller
+				}
+			}
+			out = append(out, d)
+		}
+	}
+	for i, call := range c.Calls {
+		if call.Parse {
+			continue
+		}
+		for _, smaller := range dropDecls(call.Src, 4) {
+			d := c.Clone()
+			d.Calls[i].Src = smaller
+			out = append(out, d)
+		}
+	}
 	// smaller byte offsets of faults
 	for i, f := range c.Spec.Faults {
 		if f.Bytes > 0 {
@@ -80,7 +173,7 @@ func DefaultReductions(c *Case) []*Case {
 // Minimise shrinks a failing case while the same violation class persists.
 func Minimise(env *Env, chk Check, c *Case, v Violation) *Replay {
 	quiet := &Env{Prog: env.Prog, Stats: NewStats(), Tier: env.Tier, Quiet: true}
-	deadline := time.Now().Add(10 * time.Second)
+	deadline := time.Now().Add(20 * time.Second)
 	cur := c
 	curV := v
 	saved := caseHash
@@ -114,4 +207,57 @@ func Minimise(env *Env, chk Check, c *Case, v Violation) *Replay {
 	}
 	curV.Prop = v.Prop
 	return &Replay{Violation: curV, Case: cur, Minimised: minimised}
+}
+
+// dropDecls returns variants of a Go source with one top-level declaration
+// (other than imports) removed; at most max variants, none if the source does
+// not parse or has fewer than two such declarations.
+func dropDecls(src []byte, max int) [][]byte {
+	if len(src) == 0 || strings.Contains(string(src), "\r") {
+		return nil
+	}
+	fset := token.NewFileSet()
+	f, err := parser.ParseFile(fset, "x.go", src, parser.ParseComments)
+	if err != nil {
+		return nil
+	}
+	var cands []ast.Decl
+	for _, d := range f.Decls {
+		if gd, ok := d.(*ast.GenDecl); ok && gd.Tok == token.IMPORT {
+			continue
+		}
+		cands = append(cands, d)
+	}
+	if len(cands) < 2 {
+		return nil
+	}
+	var out [][]byte
+	for _, d := range cands {
+		start := d.Pos()
+		switch x := d.(type) {
+		case *ast.FuncDecl:
+			if x.Doc != nil {
+				start = x.Doc.Pos()
+			}
+		case *ast.GenDecl:
+			if x.Doc != nil {
+				start = x.Doc.Pos()
+			}
+		}
+		a, b := fset.Position(start).Offset, fset.Position(d.End()).Offset
+		if a < 0 || b > len(src) || a >= b {
+			continue
+		}
+		for b < len(src) && src[b] == '\n' {
+			b++
+		}
+		smaller := append(append([]byte(nil), src[:a]...), src[b:]...)
+		if ParsesAsGo(smaller) == nil {
+			out = append(out, smaller)
+		}
+		if len(out) >= max {
+			break
+		}
+	}
+	return out
 }
